@@ -27,9 +27,16 @@ CFG = dict(
          "multi-token/multi-line/empty) x 8 rule selections x 13 dialects, linted with lint_string; every reported "
          "(line_no, line_pos, source_slice) and every parse-tree marker's source/templated position vs the model run on the "
          "source text. non-trivial = a replacement with non-zero net length change lies before a reported violation "
-         "(linepos: the text has a newline; marker: some marker's templated start differs from its source start)",
+         "(linepos: the text has a newline; marker: some marker's templated start differs from its source start). "
+         "Non-ASCII classes (two fifths of the linepos texts, a quarter of the linted files): 2/3/4-byte UTF-8 characters in "
+         "the texts and replacement values (linepos, offsets also at / inside / after multi-byte characters) and in leading, "
+         "inline and block comments, string literals, quoted identifiers, bare words, replacement values and parameter "
+         "names of the linted files, before line breaks and before the violations: byte offsets differ from character "
+         "indices, so a newline table, lexer or templater offset counted in characters shows as a wrong line/column; "
+         "for these a file is also non-trivial when a violation lies on a later line than a multi-byte character",
     assumptions=["column unit is the implementation's own (bytes from the start of the line + 1)",
                  "the source text compared against is the linter's newline-normalised source (TemplatedFile.source_str); generated inputs contain no CR in the viol/marker groups",
+                 "non-ASCII text is valid UTF-8 (the API takes &str); columns after a multi-byte character count its bytes, as the implementation does",
                  "files on which linting panics report nothing and are counted, not judged (crashes are C03's subject)",
                  "that token source ranges lie inside the file is C15's theorem; here it is observed per violation/marker"],
 )
